@@ -553,6 +553,11 @@ def build_streams(rng, tier, fams):
             elif fam == "thermostat":
                 s["label"] = label + (",no-device" if T is None else ",T=0" if T == 0 else ",other-T")
             streams.append(s)
+        if len(payload) <= 130 and (label == "corpus" or rng.random() < (0.06 if tier == "quick" else 0.04)):
+            # EVERY strict prefix (C05.short_*: which prefixes raise, which silently decode to another value)
+            for cut in range(len(payload)):
+                for T in (Ts[:1] if fam == "thermostat" else [None]):
+                    streams.append(dict(fam=fam, payload=payload[:cut], T=T, label="prefix-all"))
         if rng.random() < (0.5 if tier == "quick" else 0.3):
             for kind, b in malform(rng, fam, payload, tier):
                 for T in (Ts if fam == "thermostat" else [None]):
@@ -569,6 +574,64 @@ def build_streams(rng, tier, fams):
         if w[0] == "p2raw" and w[1] in fams:
             streams.append(dict(fam=w[1], T=None if w[2] == "none" else int(w[2]), payload=b"" if w[3] == "-" else bytes.fromhex(w[3]), label="corpus-raw"))
     return streams
+
+
+KNOWN_UIDS = [("001600110d383338365539", "D251PAKR3GCPZ1K8G05G0"), ("002500300e191932135831", "CE71HB09J468P1ZZ00980")]
+
+
+def uid_text_checks(res, rng, tier):
+    """helpers.uid.decode_uid vs the model's `uidString`, in particular on the inputs where the
+    theorems say the text does NOT determine the bytes (C05.uidString_eq_iff_padded, uid_collision):
+    u, u + [crc_lo], u + [crc_lo, crc_hi], … + zero bytes -- and u + [0], which does differ."""
+    from pyplumio.helpers.uid import decode_uid
+
+    uids = [b"", b"\x00", b"\x00\x00", bytes(11), bytes.fromhex("001600110d383338365539"), bytes.fromhex("002500300e191932135831")]
+    for _ in range(150 if tier == "quick" else 6000):
+        n = rng.choice([0, 1, 2, 5, 11, 11, 12, rng.randrange(40)])
+        uids.append(bytes(rng.choice([0, 0, 255, rng.randrange(256)]) if rng.random() < 0.2 else rng.randrange(256) for _ in range(n)))
+    # the controller's own UID texts (tests/helpers/test_uid.py): literal ground truth, so that a changed
+    # BASE5_KEY / CRC / POLYNOMIAL constant (which the translated model follows) still yields a concrete failing input
+    for hx, text in KNOWN_UIDS:
+        impl = decode_uid(bytes.fromhex(hx))
+        res.case(("uidtext-known", hx))
+        if impl != text:
+            res.fail("spec", dict(family="uidtext", payload=hx, thermostats=None, label="uidtext-known"), text, impl,
+                     "uid text: a UID of a real controller is not rendered as the controller prints it")
+    base = driver_batch("p2uidtext " + hexs(u) for u in uids)
+    variants = []
+    for u, ans in zip(uids, base):
+        crc = int(ans.split()[1])
+        lo, hi = crc % 256, crc // 256
+        variants.append([u, u + bytes([lo]), u + bytes([lo, hi]), u + bytes([lo, hi, 0, 0]), u + b"\x00", u + bytes([lo ^ 1])])
+    flat = [v for vs in variants for v in vs]
+    answers = iter(driver_batch("p2uidtext " + hexs(v) for v in flat))
+    for vs in variants:
+        texts_impl, texts_model = [], []
+        for v in vs:
+            t = next(answers).split()[0]
+            model = "" if t == "-" else t
+            try:
+                impl = decode_uid(v)
+            except Exception as e:  # noqa: BLE001
+                impl = "E:" + type(e).__name__
+            texts_impl.append(impl)
+            texts_model.append(model)
+            res.case(("uidtext", v), nontrivial=len(v) > 0)
+            res.count("uidtext:len=" + str(min(len(v), 40) // 10 * 10) + "+")
+            if impl != model:
+                res.fail("corr", dict(family="uidtext", payload=v.hex(), thermostats=None, label="uidtext"), model, impl,
+                         "uid text: decode_uid and the model's uidString differ")
+        # the characterised loss, observed on the implementation itself
+        if texts_impl[0] == texts_impl[1] == texts_impl[2] == texts_impl[3]:
+            res.count("uidtext:collision u / u+crc_lo / u+crc / u+crc+00 00 confirmed on decode_uid")
+        else:
+            res.fail("corr", dict(family="uidtext", payload=vs[0].hex(), thermostats=None, label="uidtext-collision"),
+                     "equal texts (C05.uid_collision)", texts_impl[:4], "uid text: appending the own checksum byte(s) should not change the text")
+        if texts_impl[5] == texts_impl[1]:
+            res.fail("corr", dict(family="uidtext", payload=vs[0].hex(), thermostats=None, label="uidtext-injective"),
+                     "different texts (C05.uidString_injective_fixed_len)", texts_impl, "uid text: equal-length UIDs with equal text")
+        if len(res.samples) < 14 and not any(x.get("family") == "uidtext" for x in res.samples):
+            res.sample(dict(family="uidtext", kind=True, uid=vs[0].hex(), variants=[v.hex() for v in vs], observed=texts_impl), limit=14)
 
 
 def run(ctx):
@@ -588,6 +651,7 @@ def run(ctx):
     if ctx.get("max_cases"):
         streams = streams[: ctx["max_cases"]]
     compare_all(res, streams, ctx["tier"])
+    uid_text_checks(res, rng, ctx["tier"])
     res.failures.sort(key=lambda f: (f["kind"] != "spec", len(f["input"].get("payload", ""))))  # smallest concrete failing input first
     res.extra["round_trip_theorems"] = ["rt_params_ecomax", "rt_params_mixer", "rt_params_thermostat", "rt_schedules", "rt_alerts", "rt_uid", "rt_password"]
     res.extra["decodes_per_payload"] = "frame.data, 2 x decode_message on the same frame, fresh frame, structure decoder (offset)"
@@ -602,6 +666,20 @@ def replay(ctx):
     res = Result(PROP)
     res.rule = "replay of one recorded payload"
     payload = bytes.fromhex(inp["payload"])
+    if inp["family"] == "uidtext":
+        from pyplumio.helpers.uid import decode_uid
+
+        t = driver_batch(["p2uidtext " + hexs(payload)])[0].split()[0]
+        model = "" if t == "-" else t
+        impl = decode_uid(payload)
+        res.case(("uidtext", payload))
+        res.sample(dict(uid=payload.hex(), observed=impl, model=model))
+        for hx, text in KNOWN_UIDS:
+            if hx == payload.hex() and impl != text:
+                res.fail("spec", inp, text, impl, "uid text: a UID of a real controller is not rendered as the controller prints it")
+        if impl != model:
+            res.fail("corr", inp, model, impl, "uid text: decode_uid and the model's uidString differ")
+        return res
     s = dict(fam=inp["family"], payload=payload, T=inp.get("thermostats"), label="replay:" + inp.get("label", ""))
     if inp.get("message") and inp.get("label", "").endswith(",wf"):
         hx, wf, val = driver_batch([inp["message"]])[0].split(" ", 2)
